@@ -115,7 +115,7 @@ func C18TD(args []string) error {
 							return
 						}
 					}
-					m, err := c.Recv(2 * time.Second)
+					m, err := recvPatient(c, 2*time.Second)
 					if err != nil {
 						o.Detail = "no answer: " + err.Error()
 						return
